@@ -17,4 +17,7 @@ MCTarget5 == MCTarget
 \* sixth: trough and a holding lock both feed the one-slot launcher; held balls serve requests when the trough is empty
 MCCap6 == MCCap3
 MCTarget6 == MCTarget2
+MCNoAtt == [d \in MCDevs |-> 0]
+\* topology balls3: the trough gives up after three failed attempts
+MCAtt3 == [d \in MCDevs |-> IF d = "bd_trough" THEN 3 ELSE 0]
 =============================================================================
